@@ -35,7 +35,8 @@ def required_cells(tier):
     return ['agree:google', 'agree:freeform', 'agree:auto', 'feature:async', 'feature:method:prop',
             'feature:method:static', 'feature:method:cls', 'feature:method:wrapped', 'feature:top:deco',
             'feature:top:main', 'feature:method:setter', 'feature:top:ctxmgr', 'feature:top:subclass', 'feature:module-dir-hook', 'feature:top:handler', 'feature:top:matcharm', 'feature:top:tryelse', 'feature:top:forbody', 'feature:method:setter_stacked', 'feature:method:getter_again', 'feature:top:notmain', 'feature:method:ctxmethod',
-            'feature:encoding:utf-8', 'feature:encoding:utf-8-sig', 'feature:encoding:latin-1']
+            'feature:encoding:utf-8', 'feature:encoding:utf-8-sig', 'feature:encoding:latin-1',
+            'feature:wraps-aliased-imports-from-a-sibling']
 
 
 def collect(path, style, analysis):
@@ -62,6 +63,32 @@ def check_module(ctx, idx, seed):
         spec.features.add('encoding:' + enc)
         if enc == 'latin-1':
             src = '# -*- coding: latin-1 -*-\n' + src
+        spec.src = src
+    sib_path = None
+    if idx % 5 == 2:
+        # names imported from a sibling module under an alias, and definitions of the module's own that carry the
+        # imported objects' original names (wrapping / subclassing a sibling's definition)
+        sibname = 'sib_%d_%d_%d_zz' % (ctx.seed, ctx.shard, idx)
+        sib_path = os.path.join(ctx.tmp, sibname + '.py')
+        ms, mo1, mo2, mo3 = ['U%dx98%d_0' % (idx, j) for j in range(4)]
+        with open(sib_path, 'w') as f:
+            f.write('def helper_zz():\n    """\n    Example:\n        >>> print("%s")\n        %s\n    """\n    return 1\n\n'
+                    'class SibK_zz:\n    def m(self):\n        return 2\n' % (ms, ms))
+        spec.forbidden[ms] = 'defined in a sibling module, only imported here'
+        head = 'from %s import helper_zz as _helper_zz\nfrom %s import SibK_zz as _SibK_zz\n' % (sibname, sibname)
+        tail = ('\ndef helper_zz():\n    """\n    Example:\n        >>> print("%s")\n        %s\n    """\n    return _helper_zz()\n\n'
+                'class SibK_zz(_SibK_zz):\n    """\n    Example:\n        >>> print("%s")\n        %s\n    """\n'
+                '    def m(self):\n        """\n        Example:\n            >>> print("%s")\n            %s\n        """\n        return 3\n'
+                % (mo1, mo1, mo2, mo2, mo3, mo3))
+        spec.inventory['helper_zz'] = gm.DocSpec('google', [mo1])
+        spec.inventory['SibK_zz'] = gm.DocSpec('google', [mo2])
+        spec.inventory['SibK_zz.m'] = gm.DocSpec('google', [mo3])
+        spec.features.add('wraps-aliased-imports-from-a-sibling')
+        lines = src.split('\n')
+        k = 1 if lines and lines[0].startswith('# -*- coding') else 0
+        # (the imports go behind a module docstring, if there is one: find the first top-level def/class/if line)
+        at = next((j for j, ln in enumerate(lines) if j >= k and ln.startswith(('def ', 'class ', 'async def ', 'if ', 'try:', 'with ', '@', 'for '))), len(lines))
+        src = '\n'.join(lines[:at]) + ('\n' if at else '') + head + '\n'.join(lines[at:]) + tail
         spec.src = src
     with open(path, 'w', encoding=enc) as f:
         f.write(src)
@@ -108,6 +135,9 @@ def check_module(ctx, idx, seed):
                        limit=1)
     finally:
         os.unlink(path)
+        if sib_path is not None:
+            os.unlink(sib_path)
+            sys.modules.pop(os.path.basename(sib_path)[:-3], None)
         for k in list(sys.modules):
             if k == modname:
                 del sys.modules[k]
